@@ -105,8 +105,10 @@ type TextStyle struct {
 	TabSize       TabSize
 }
 
-// If ignoreSpacing is true, 'word-spacing' and 'letter-spacing' are
-// not queried from [style]
+// If ignoreSpacing is true, the properties accepting lengths ('word-spacing',
+// 'letter-spacing', 'font-size', 'tab-size' and 'hyphenate-limit-zone') are
+// not queried from [style]: this is used to resolve ex and ch units, which
+// may appear in the value of these properties.
 func NewTextStyle(style pr.StyleAccessor, ignoreSpacing bool) *TextStyle {
 	var out TextStyle
 
@@ -114,7 +116,9 @@ func NewTextStyle(style pr.StyleAccessor, ignoreSpacing bool) *TextStyle {
 	out.FontDescription.Style = newFontStyle(style.GetFontStyle())
 	out.FontDescription.Weight = newFontWeight(style.GetFontWeight())
 	out.FontDescription.Stretch = newFontStretch(style.GetFontStretch())
-	out.FontDescription.Size = pr.Fl(style.GetFontSize().Value)
+	if !ignoreSpacing {
+		out.FontDescription.Size = pr.Fl(style.GetFontSize().Value)
+	}
 	out.FontDescription.VariationSettings = newFontVariationSettings(style.GetFontVariationSettings())
 
 	out.FontLanguageOverride = newFontLanguageOverrride(style.GetFontLanguageOverride())
@@ -129,16 +133,15 @@ func NewTextStyle(style pr.StyleAccessor, ignoreSpacing bool) *TextStyle {
 	out.Hyphens = newHyphens(style.GetHyphens())
 	out.HyphenateLimitChars = style.GetHyphenateLimitChars()
 	out.HyphenateCharacter = string(style.GetHyphenateCharacter())
-	out.HyphenateLimitZone = newHyphenateZone(style.GetHyphenateLimitZone())
 
 	if !ignoreSpacing {
+		out.HyphenateLimitZone = newHyphenateZone(style.GetHyphenateLimitZone())
 		out.WordSpacing = pr.Fl(style.GetWordSpacing().Value)
 		if ls := style.GetLetterSpacing(); ls.S != "normal" {
 			out.LetterSpacing = pr.Fl(ls.Value)
 		}
+		out.TabSize = newTabSize(style.GetTabSize())
 	}
-
-	out.TabSize = newTabSize(style.GetTabSize())
 
 	out.FontFeatures = getFontFeatures(style)
 
